@@ -89,6 +89,14 @@ let () =
           let other_err = List.exists (fun (c', r', _) -> c' = c && is_err r') parsed in
           let name = if int_of_nat kind = 0 then "operand_changed"
             else if is_err r || other_err then "nondeterministic_error" else "nondeterministic_result" in
+          (* class pencil: the harness note holds the two operands and both differing results as
+             text; it goes first so that it survives the truncation of the printed detail (the
+             replay file keeps the whole case line) *)
+          let is_pencil = String.length f.(1) >= 6 && String.sub f.(1) 0 6 = "pencil" in
+          if is_pencil && f.(7) <> "" then
+            fail id "SPEC" name (Printf.sprintf "event %d class %s call %s :: %s" i f.(1) c
+                                   (if String.length f.(7) > 3000 then String.sub f.(7) 0 3000 ^ "..." else f.(7)))
+          else
           fail id "SPEC" name (trunc (Printf.sprintf "event %d call %s pool %s :: %s" i c f.(2) f.(7)))
         | None -> fail id "CORR" "history_checker_inconsistent" ""
       end;
